@@ -11,7 +11,7 @@ Judge_resolve(c) ==
       R == Parse(c.r)
   IN IF ~W.ok THEN << Cl("H.schema", "fail") >>
      ELSE IF ~R.ok THEN << Cl("C08.value", "skip") >>            \* the derived reader schema is itself invalid: not this property's business
-     ELSE IF "perr" \in DOMAIN c THEN << Cl("C11.accept", "fail") >>
+     ELSE IF "perr" \in DOMAIN c THEN << Cl("C11.accept", "fail"), Cl("C08.value.schemaless", "fail") >>
      ELSE
      LET o == Opts0
          enc == Encode(W.t, c.datum, W.st.names, o)
